@@ -322,6 +322,7 @@ class FiltersSet:
                     atype = "number"
                 elif isinstance(arg, list):
                     atype = "stringlist"
+                    arg = [self.__quote_if_necessary(item) for item in arg]
                 elif arg.startswith(":"):
                     atype = "tag"
                 else:
